@@ -59,7 +59,7 @@ def matchTail (fuel : Nat) (event : Event) (activeLoops : List (Option String)) 
   let handled := res.1
   let mut headsMatching := res.2.1
   let headsFailing := res.2.2.1
-  let headsErroring := res.2.2.2
+  let mut headsErroring := res.2.2.2
   -- unhandled event
   let unhandled := activeLoops.filter fun l => match l with
     | some l => !handled.contains l
@@ -72,7 +72,10 @@ def matchTail (fuel : Nat) (event : Event) (activeLoops : List (Option String)) 
   let r ← getRest
   let scoresOf := fun (kk : Key) => ((OMap.lookup kk r.hx).getD {}).scores
   headsMatching := sortDesc scoresOf headsMatching
-  handleEventMatching event headsMatching
+  -- `for head in _handle_event_matching(…): heads_matching.remove(head); heads_erroring.append(head)`
+  for k in ← handleEventMatching event headsMatching do
+    headsMatching := listRemoveKey k headsMatching
+    headsErroring := headsErroring ++ [k]
   if event.ev.kind = .action then updateActionStatusByEvent event.ev
   for k in headsFailing do
     let hx ← getHeadX k
@@ -283,6 +286,48 @@ theorem RetP.forIn {α β : Type} (P : β → Prop) (body : α → β → M (For
   intro s r s' h
   exact forIn_inv P body xs init h0 (fun a ha b hb' s0 r0 s1 hr => hb a ha b hb' s0 r0 s1 hr) s r s' h
 
+/-- the heads `_handle_event_matching` hands back (the erroring ones) are among the heads it was given -/
+theorem handleEventMatching_sub (event : Event) (hs : List Key) (s : VM) (r : List Key) (s' : VM)
+    (h : handleEventMatching event hs s = .ok r s') : ∀ k ∈ r, k ∈ hs := by
+  unfold handleEventMatching at h
+  simp only [bind_assoc, pure_bind] at h
+  obtain ⟨acc, s1, h1, h2⟩ := bind_ok h
+  obtain ⟨e1, _⟩ := pure_ok h2
+  subst e1
+  refine forIn_inv (fun acc => ∀ k ∈ acc, k ∈ hs) _ hs [] (by simp) ?_ s _ s1 h1
+  intro a ha b hb s0 r0 s1' hr
+  obtain ⟨cfg, s2, g1, g2⟩ := bind_ok hr
+  obtain ⟨ohd, s3, g3, g4⟩ := bind_ok g2
+  cases ohd with
+  | none => simp only [unsupported_bind] at g4; cases g4
+  | some hd =>
+    simp only at g4
+    obtain ⟨out, s4, g5, g6⟩ := bind_ok g4
+    cases out with
+    | ok u => obtain ⟨e1, e2⟩ := pure_ok g6; rw [e1]; exact hb
+    | error cm =>
+      obtain ⟨c, m⟩ := cm
+      simp only at g6
+      obtain ⟨_, s5, g7, g8⟩ := bind_ok g6
+      obtain ⟨_, s6, g9, g10⟩ := bind_ok g8
+      obtain ⟨e1, e2⟩ := pure_ok g10
+      rw [e1]
+      intro k hk
+      simp only [stepVal, List.mem_append, List.mem_singleton] at hk
+      rcases hk with hk | hk
+      · exact hb k hk
+      · rw [hk]; exact ha
+
+theorem mem_listRemoveKey {k k' : Key} : ∀ {l : List Key}, k' ∈ listRemoveKey k l → k' ∈ l
+  | [], h => by cases h
+  | y :: ys, h => by
+    unfold listRemoveKey at h
+    split at h
+    · exact List.mem_cons_of_mem _ h
+    · rcases List.mem_cons.1 h with h | h
+      · exact h ▸ List.mem_cons_self
+      · exact List.mem_cons_of_mem _ (mem_listRemoveKey h)
+
 section frm
 variable {G : FUid → Prop}
 theorem FrM.matchTail (fuel : Nat) (event : Event) (activeLoops : List (Option String)) (actionable : List Key) (res : ScanAcc)
@@ -297,8 +342,28 @@ theorem FrM.matchTail (fuel : Nat) (event : Event) (activeLoops : List (Option S
     apply Pres.bind (frmPO G) (Pres.getRest (frmPO G)); intro r
     extract_lets +onlyGivenNames scoresOf hms
     have hms_G : ∀ k ∈ hms, G k.1 := fun k hk => hM k (Or.inl (mem_sortDesc _ _ _ hk))
-    apply Pres.bind (frmPO G) (FrM.handleEventMatching event hms hms_G hsrc); intro _
-    extract_lets +onlyGivenNames jp2
+    refine Pres.bind_ret (frmPO G) (fun errs => ∀ k ∈ errs, k ∈ hms) (FrM.handleEventMatching event hms hms_G hsrc)
+      (fun s errs s' h => handleEventMatching_sub event hms s errs s' h) ?_
+    intro errs herrs
+    -- `heads_matching.remove(head); heads_erroring.append(head)` for the heads handed back: both lists stay inside `G`
+    refine Pres.bind_ret (frmPO G) (fun p : List Key × List Key => (∀ k ∈ p.1, G k.1) ∧ (∀ k ∈ p.2, G k.1)) ?hxl ?hPl ?hfl
+    case hxl =>
+      refine Pres.forIn_mem (frmPO G) _ _ _ ?_
+      intro k hk b
+      exact Pres.pure (frmPO G) _
+    case hPl =>
+      refine RetP.forIn (fun p : List Key × List Key => (∀ k ∈ p.1, G k.1) ∧ (∀ k ∈ p.2, G k.1)) _ errs (hms, he)
+        ⟨hms_G, fun k hk => hM k (Or.inr (Or.inr hk))⟩ ?_
+      intro k hk b hb
+      apply RetP.pure
+      refine ⟨fun k' hk' => hb.1 k' (mem_listRemoveKey hk'), fun k' hk' => ?_⟩
+      rcases List.mem_append.1 hk' with h | h
+      · exact hb.2 k' h
+      · rw [List.mem_singleton.1 h]; exact hms_G k (herrs k hk)
+    intro p hp
+    extract_lets +onlyGivenNames hm1 he1 jp2
+    have hm1_G : ∀ k ∈ hm1, G k.1 := hp.1
+    have he1_G : ∀ k ∈ he1, G k.1 := hp.2
     have hjp2 : ∀ u, Pres (FrM G) (jp2 u) := by
       intro u
       dsimp -zeta only [jp2]
@@ -309,7 +374,7 @@ theorem FrM.matchTail (fuel : Nat) (event : Event) (activeLoops : List (Option S
         have hGk : G k.1 := hM k (Or.inr (Or.inl hk))
         pres_search (FrM G) (frmPO G) (first | frm_leaf | (refine FrM.of_fr (Fr.setHeadPos _ _ ?_); g_mem) | (refine FrM.of_fr (Fr.abortFlow _ _ _ _ ?_); g_mem))
       case hP =>
-        refine RetP.forIn (fun acc => ∀ k ∈ acc, G k.1) _ hf hms hms_G ?_
+        refine RetP.forIn (fun acc => ∀ k ∈ acc, G k.1) _ hf hm1 hm1_G ?_
         intro k hk b hb
         have hGk : G k.1 := hM k (Or.inr (Or.inl hk))
         apply RetP.bind; intro hx
@@ -328,7 +393,7 @@ theorem FrM.matchTail (fuel : Nat) (event : Event) (activeLoops : List (Option S
         apply Pres.bind (frmPO G)
         · refine Pres.forIn_mem (frmPO G) _ _ _ ?_
           intro k hk b
-          have hGk : G k.1 := hM k (Or.inr (Or.inr hk))
+          have hGk : G k.1 := he1_G k hk
           pres_search (FrM G) (frmPO G) (first | frm_leaf | (refine FrM.of_fr (Fr.abortFlow _ _ _ _ ?_); g_mem))
         · intro _
           apply Pres.bind (frmPO G) (FrM.of_fr (Fr.advanceHeadFront fuel hm2 hacc)); intro nh
